@@ -174,3 +174,11 @@ package safehtml
 //@   loop 2
 //@     invariant len(buf) == slen(seq(buf))
 //@     invariant seqeq(seq(buf), lcat(bgdecl(properties.BackgroundImageURLs), cat("font-family:", fontupto(properties.FontFamily, i))))
+
+//@ func CSSRule(selector string, style Style) (r StyleSheet, err error)
+//@   serves C16
+//@   ensures nolt: isnil(err) ==> inlang(NoLT, selector)
+//@   ensures accepted: isnil(err) ==> inlang(SelectorAccepted, selector)
+//@   ensures balanced: isnil(err) ==> balanced(rm_cssStringPattern(selector))
+//@   ensures layout: isnil(err) ==> seqeq(r.str, cat(selector, "{", style.str, "}"))
+//@   ensures zero: !isnil(err) ==> len(r.str) == 0
